@@ -162,12 +162,17 @@ CLAIMED.update({
               "interior boundaries lie on the storage grid; " + _TIE + " through a recording non-NumPy source (every logged request).",
               "5/C24", _TB + "harness/recsrc.py recorder; NaN targets / non-integer storage grids outside the model.",
               "Coq proof over Gallina model + differential correspondence via recording source"),
-    "C27": _c("Coq theorems (coq/Properties/C27.v): moved_fraction in [0,1], zero for identical layouts and pure splits; per-axis stage "
-              "quantities and the N-d combination give 0 <= min <= max; same-layout rechunk moves nothing; slice / partial-reduce / "
-              "blockwise / default / alias estimates well-formed; " + _TIE + "; every node of raw / optimized / lowered / materialized "
-              "forms of generated programs is checked against the property.", "5/C27",
-              _TB + "classes without a Gallina model (Shuffle, overlap, sliding-window, cumulative, Stack) get property-level checks only.",
-              "Coq proof over Gallina model + differential correspondence + node walk"),
+    "C27": _c("Coq theorems (coq/Properties/C27.v, 74 obligations): moved_fraction in [0,1], zero for identical layouts and pure splits; "
+              "per-axis stage quantities and the N-d combination give 0 <= min <= max; same-layout rechunk moves nothing; EVERY class that "
+              "overrides transfer_bytes has a Gallina transcription proved well-formed for all non-negative chunkings: rechunk (sum over the "
+              "plan's stages), P2P, slice, PartialReduce, Blockwise, the ArrayExpr default, OverlapInternal, Shuffle, Stack, CumReduction, "
+              "CumReductionBlelloch, SlidingWindowReduction, MovingWindowReduction (with the zero cases: single block / no exchange / one "
+              "source per output chunk; one clause refuted at the model level outside the public API); " + _TIE + "; every node of raw / "
+              "optimized / lowered / materialized forms of generated programs and directed streams is compared exactly with the model of "
+              "the class that owns its estimate and checked against the property.", "5/C27",
+              _TB + "plan stages of plan_rechunk and the shuffle grouping are oracle arguments; CumReduction's max 2(k-1)/k is an exact "
+              "rational compared with relative tolerance 2^-36.",
+              "Coq proof over Gallina models of every transfer_bytes override + exact differential correspondence + node walk"),
 })
 
 CLAIMED.update({
